@@ -80,6 +80,8 @@ fn voting_thread(
                 tracks,
                 monitor,
             } => {
+                #[cfg(similari_verif)]
+                crate::verif_hooks::point("vote_job_begin", scene_id);
                 let candidates_num = tracks.len();
                 let tracks_num = {
                     let store = store.read().expect("Access to store must always succeed");
@@ -104,6 +106,8 @@ fn voting_thread(
                         *track_id += 1;
                         *track_id
                     };
+                    #[cfg(similari_verif)]
+                    crate::verif_hooks::point("vote_store_write", scene_id);
                     let track_id: u64 = if let Some(dest) = winners.get(&source) {
                         let dest = dest[0];
                         if dest == source {
@@ -138,6 +142,8 @@ fn voting_thread(
 
                     res.push(SortTrack::from(track))
                 }
+                #[cfg(similari_verif)]
+                crate::verif_hooks::point("vote_send", scene_id);
                 let res = channel.send((scene_id, res));
                 if let Err(e) = res {
                     warn!("Unable to send results to a caller, likely the caller already closed the channel. Error is: {:?}", e);
@@ -146,6 +152,8 @@ fn voting_thread(
                 let mut lock = lock.lock().unwrap();
                 *lock -= 1;
                 cvar.notify_one();
+                #[cfg(similari_verif)]
+                crate::verif_hooks::point("vote_job_end", scene_id);
             }
             VotingCommands::Exit => break,
         }
@@ -235,6 +243,8 @@ impl BatchSort {
             let _guard = cvar.wait_while(lock.lock().unwrap(), |v| *v > 0).unwrap();
         }
 
+        #[cfg(similari_verif)]
+        crate::verif_hooks::point("batch_monitor_passed", batch_request.batch_size() as u64);
         self.monitor = Some(Arc::new((
             Mutex::new(batch_request.batch_size()),
             Condvar::new(),
@@ -286,6 +296,8 @@ impl BatchSort {
                     tracks,
                 })
                 .expect("Sending voting request to voting thread must not fail");
+            #[cfg(similari_verif)]
+            crate::verif_hooks::point("batch_scene_dispatched", *scene_id);
         }
     }
 
